@@ -194,6 +194,38 @@ def coinductive_trap_pair(rng):
     if rng.random() < 0.7: b, _ = permute_states(rng, b)
     return a, b
 
+def late_sibling_pair(rng):
+    """A: f(c1, c2) -> p (final) where c2 is reached by 2-3 different leaf symbols and c1 sits on top of a unary chain over a leaf that has TWO
+    parents in B (its macro-state is larger, so it leaves the worklist late); B gives every leaf of c2 its own state, and f over some of them
+    leads to a final state, over the others to a non-final one. The upward checker then meets, in ONE enumeration of the rule f(c1, c2),
+    accepting and non-accepting combinations of child macro-states: every combination has to be judged on its own."""
+    leafcodes = rng.sample(range(8, 24), 4)
+    la, ls = leafcodes[0], leafcodes[1:1 + rng.randint(2, 3)]
+    u, f, g = 2, 3, 5
+    chain = rng.randint(1, 3)
+    swap = rng.random() < 0.5
+    # A: states 0..chain = chain, chain+1 = c2, chain+2 = p
+    arules = [(la, 0, ())] + [(u, i + 1, (i,)) for i in range(chain)]
+    c1, c2, p = chain, chain + 1, chain + 2
+    arules += [(x, c2, ()) for x in ls]
+    arules.append((f, p, (c2, c1) if swap else (c1, c2)))
+    a = TA([p], arules)
+    # B: two copies of the chain base (0 and 50), chain states 1..chain, leaf states 60+i, s = 90 final, t = 91
+    brules = [(la, 0, ()), (la, 50, ())]
+    if chain >= 1: brules += [(u, 1, (0,)), (u, 1, (50,))]
+    brules += [(u, i + 1, (i,)) for i in range(1, chain)]
+    r1 = chain
+    acc = [rng.random() < 0.6 for _ in ls]
+    if all(acc) and rng.random() < 0.7: acc[rng.randrange(len(acc))] = False
+    for i, x in enumerate(ls):
+        brules.append((x, 60 + i, ()))
+        brules.append((f, 90 if acc[i] else 91, (60 + i, r1) if swap else (r1, 60 + i)))
+    brules.append((g, 90, (91,)))
+    b = TA([90], brules)
+    rng.shuffle(a.rules); rng.shuffle(b.rules)
+    if rng.random() < 0.5: b, _ = permute_states(rng, b)
+    return a, b
+
 def permute_states(rng, a, extra=0, sparse=False):
     st = sorted(a.states())
     if sparse:
